@@ -354,4 +354,18 @@ impl ProcessAccumulator {
       slice=r"(loader\.borrow\(\)\.load\(\|path, pctx, entry\| \{\s*accum\.process\(ctx, entry\)\.map_err\()", slice_count=1, slice_template="/* anchor: {EXPR} */\n"),
     U("anchor:process hands the register and its balance to the Ledger", BK, [r"pub fn process<'ctx, L, F>"], no_canary=True,
       slice=r"(Ok\(Ledger \{\s*transactions: accum\.txns,\s*raw_balance: accum\.balance,)", slice_count=1, slice_template="/* anchor: {EXPR} */\n"),
+    # ---- load_price_db: what a price-database line `P date X rate Y` records (the parser and the file reading are outside; the event is a slice)
+    U("callsite:load_price_db.event_of_a_line", PD, [r"impl<'ctx> PriceRepositoryBuilder<'ctx>", r"pub fn load_price_db\b"], fn="price_db_event", no_canary=True,
+      slice=r"self\.insert_price\(\s*PriceSource::PriceDB,\s*(PriceEvent \{[\s\S]*?\n                \}),", slice_count=1, slice_raw=True,
+      rewrites=[("R17-free-var", "entry.datetime.date()", "date", 1)],
+      slice_template="""fn price_db_event(target: Commodity, rate: SingleAmount, date: NaiveDate) -> (ev: PriceEvent)
+    ensures
+        // C09: the line `P date X rate Y` says: on that date 1 X = rate Y - recorded from the price database (the source is in the same statement: anchor)
+        ev.price_x.v() == 1real && ev.price_x.commodity == target,   // @load_price_db.one_unit_of_the_priced_commodity
+        ev.price_y == rate, ev.date == date,                          // @load_price_db.priced_at_the_stated_rate_on_the_stated_date
+{
+    {EXPR}
+}"""),
+    U("anchor:load_price_db records its lines as price-database prices", PD, [r"impl<'ctx> PriceRepositoryBuilder<'ctx>", r"pub fn load_price_db\b"], no_canary=True,
+      slice=r"(self\.insert_price\(\s*PriceSource::PriceDB,)", slice_count=1, slice_template="/* anchor: {EXPR} */\n"),
 ]
